@@ -2,55 +2,54 @@ package main
 
 import (
 	"fmt"
+	"sync/atomic"
 	"time"
 
 	"github.com/VolantMQ/vlapi/mqttp"
 )
 
 func init() {
-	// experiment: unacknowledged messages of a v5 client that uses topic aliases, across a reconnect
+	// experiment: a QoS 0 retained publish REPLACES the retained message of its topic; is there a moment at which
+	// a reader finds the topic without any retained message?
 	subcmds["dbg"] = func(args []string) int {
-		b, _ := NewBroker(BrokerOpts{})
-		forever := uint32(0xFFFFFFFF)
-		connect := func() *Client {
-			cl := b.Dial()
-			_, err := cl.Connect(ConnectOpts{ID: "S", Ver: mqttp.ProtocolV50, Clean: false, Expiry: &forever, AliasMax: 5})
-			if err != nil {
-				fmt.Println("connect:", err)
+		prov, err := newProvider("lf")
+		if err != nil {
+			fmt.Println(err)
+			return 1
+		}
+		defer prov.Shutdown()
+		mk := func(tag byte) *mqttp.Publish {
+			m := mqttp.NewPublish(mqttp.ProtocolV311)
+			_ = m.Set("r/t", []byte{0, tag}, 0, true, false)
+			return m
+		}
+		_ = prov.Retain(mk(1))
+		for {
+			if r, _ := prov.Retained("r/t"); len(r) == 1 {
+				break
 			}
-			return cl
-		}
-		s := connect()
-		_ = s.Send(mkSubscribe(mqttp.ProtocolV50, 1, []string{"a/#"}, []byte{1}))
-		_, _ = s.Recv(2 * time.Second)
-		pc := b.Dial()
-		_, _ = pc.Connect(ConnectOpts{ID: "P", Ver: mqttp.ProtocolV311, Clean: true})
-		pa := pc.Auto(false)
-		for i := 1; i <= 2; i++ {
-			_ = pa.SendL(mkPublish(mqttp.ProtocolV311, "a/b", []byte{byte(i)}, 1, false, uint16(i)))
-		}
-		show := func(cl *Client, n int, label string) {
-			for i := 0; i < n; i++ {
-				pk, err := cl.Recv(2 * time.Second)
-				fmt.Printf("%s: raw=% x err=%v", label, cl.LastRaw, err)
-				if m, ok := pk.(*mqttp.Publish); ok {
-					fmt.Printf(" topic=%q payload=%v dup=%v alias=%v", m.Topic(), m.Payload(), m.Dup(), m.PropertyGet(mqttp.PropertyTopicAlias) != nil)
-				}
-				fmt.Println()
-				if err != nil {
-					return
-				}
-			}
-		}
-		show(s, 2, "first connection")
-		d0 := b.Met.Disconnected()
-		s.Close()
-		for dl := time.Now().Add(3 * time.Second); time.Now().Before(dl) && b.Met.Disconnected() == d0; {
 			time.Sleep(time.Millisecond)
 		}
-		time.Sleep(50 * time.Millisecond)
-		s2 := connect()
-		show(s2, 2, "after reconnect")
+		var stop int32
+		go func() {
+			for i := 0; atomic.LoadInt32(&stop) == 0; i++ {
+				_ = prov.Retain(mk(byte(i)))
+				if i%64 == 0 {
+					time.Sleep(50 * time.Microsecond)
+				}
+			}
+		}()
+		t0 := time.Now()
+		empty, n := 0, 0
+		for time.Since(t0) < 2*time.Second {
+			r, _ := prov.Retained("r/t")
+			n++
+			if len(r) == 0 {
+				empty++
+			}
+		}
+		atomic.StoreInt32(&stop, 1)
+		fmt.Printf("reads=%d empty=%d\n", n, empty)
 		return 0
 	}
 }
